@@ -2030,3 +2030,237 @@ def do_replay(prop: Prop, path: str) -> int:  # noqa: F811
     if doc.get("kind") == "cold_start" and doc.get("case") is not None:
         return cold_replay(prop, full, doc)
     return _do_replay_warm(prop, path)
+
+
+# --------------------------------------------------------------------------------------------
+# NAME-LEVEL use of the library's enumerations. Applications are written against the NAMES of the members
+# (`FaultHandlerCode.NOTICE_OF_CANCELLATION`), not against their numbers; a case that carries the integer code of a member and
+# converts it with `Enum(code)` packs the same octet whatever NAME that number has, so a member that was swapped / renumbered /
+# turned into an alias of another one is invisible to it. The tables below give, for every enumeration of the library that
+# stands for a field of a standard, the code the STANDARD assigns to each (library spelling of a) standard name - the same
+# numbers the Lean Spec tables use. An implementation op
+#   * obtains the member to pass to a constructor / setter BY ITS STANDARD NAME (`std_member`), and
+#   * compares what a decoder / getter hands back with the members OF THOSE NAMES (`std_code`): `decoded == Enum.NAME` is True
+#     exactly when the code is the standard's code for NAME.
+# Codes the standard gives no name, and names this version of the library does not define, go in / come out as integers as
+# before (never an alarm). The Lean op answers (integers per the standard) stay the reference.
+# --------------------------------------------------------------------------------------------
+STD_NAMES: Dict[str, Dict[str, int]] = {
+    # ---- CCSDS 727.0-B-5 (CFDP) table 5-1, fixed PDU header
+    "PduType": {"FILE_DIRECTIVE": 0, "FILE_DATA": 1},
+    "Direction": {"TOWARDS_RECEIVER": 0, "TOWARDS_SENDER": 1},
+    "TransmissionMode": {"ACKNOWLEDGED": 0, "UNACKNOWLEDGED": 1},
+    "CrcFlag": {"NO_CRC": 0, "WITH_CRC": 1},
+    "LargeFileFlag": {"NORMAL": 0, "LARGE": 1},
+    "SegmentationControl": {"NO_RECORD_BOUNDARIES_PRESERVATION": 0, "RECORD_BOUNDARIES_PRESERVATION": 1},
+    "SegmentMetadataFlag": {"NOT_PRESENT": 0, "PRESENT": 1},
+    # table 5-4 directive codes (0x0A, the library's `NONE`, is not a code of the standard: it stays an integer)
+    "DirectiveType": {"EOF_PDU": 4, "FINISHED_PDU": 5, "ACK_PDU": 6, "METADATA_PDU": 7, "NAK_PDU": 8, "PROMPT_PDU": 9,
+                      "KEEP_ALIVE_PDU": 12},
+    # table 5-5 condition codes (1001 'invalid file structure' is a code of the standard this library gives no name;
+    # NO_CONDITION_FIELD = -1 is the library's own "no such field" marker)
+    "ConditionCode": {"NO_CONDITION_FIELD": -1, "NO_ERROR": 0, "POSITIVE_ACK_LIMIT_REACHED": 1, "KEEP_ALIVE_LIMIT_REACHED": 2,
+                      "INVALID_TRANSMISSION_MODE": 3, "FILESTORE_REJECTION": 4, "FILE_CHECKSUM_FAILURE": 5, "FILE_SIZE_ERROR": 6,
+                      "NAK_LIMIT_REACHED": 7, "INACTIVITY_DETECTED": 8, "INVALID_FILE_STRUCTURE": 9, "CHECK_LIMIT_REACHED": 10,
+                      "UNSUPPORTED_CHECKSUM_TYPE": 11, "SUSPEND_REQUEST_RECEIVED": 14, "CANCEL_REQUEST_RECEIVED": 15},
+    # 5.2.3 Finished PDU
+    "DeliveryCode": {"DATA_COMPLETE": 0, "DATA_INCOMPLETE": 1},
+    "FileStatus": {"DISCARDED_DELIBERATELY": 0, "DISCARDED_FILESTORE_REJECTION": 1, "FILE_RETAINED": 2, "FILE_STATUS_UNREPORTED": 3},
+    # 5.2.4 ACK PDU
+    "TransactionStatus": {"UNDEFINED": 0, "ACTIVE": 1, "TERMINATED": 2, "UNRECOGNIZED": 3},
+    # 5.2.7 Prompt PDU
+    "ResponseRequired": {"NAK": 0, "KEEP_ALIVE": 1},
+    # 5.2.5 Metadata PDU / SANA checksum identifiers
+    "ChecksumType": {"MODULAR": 0, "CRC_32_PROXIMITY_1": 1, "CRC_32C": 2, "CRC_32": 3, "NULL_CHECKSUM": 15},
+    # 5.3 File Data PDU, record continuation state
+    "RecordContinuationState": {"NO_START_NO_END": 0, "START_WITHOUT_END": 1, "END_WITHOUT_START": 2, "START_AND_END": 3},
+    # 5.4 TLV types, table 5-16 action codes, table 5-18 status codes (action code * 16 + status nibble), table 5-19 handler codes
+    "TlvType": {"FILESTORE_REQUEST": 0, "FILESTORE_RESPONSE": 1, "MESSAGE_TO_USER": 2, "FAULT_HANDLER": 4, "FLOW_LABEL": 5,
+                "ENTITY_ID": 6},
+    "FilestoreActionCode": {"CREATE_FILE_SNM": 0, "DELETE_FILE_SNN": 1, "RENAME_FILE_SNP": 2, "APPEND_FILE_SNP": 3,
+                            "REPLACE_FILE_SNP": 4, "CREATE_DIR_SNN": 5, "REMOVE_DIR_SNN": 6, "DENY_FILE_SMM": 7, "DENY_DIR_SNN": 8},
+    "FilestoreResponseStatusCode": {
+        "SUCCESS": 0, "NOT_PERFORMED": 15, "APPEND_FROM_DATA_FILE_NOT_EXISTS": 2, "CREATE_SUCCESS": 0, "CREATE_NOT_ALLOWED": 1,
+        "CREATE_NOT_PERFORMED": 15, "DELETE_SUCCESS": 16, "DELETE_FILE_DOES_NOT_EXIST": 17, "DELETE_NOT_ALLOWED": 31,
+        "RENAME_SUCCESS": 32, "RENAME_OLD_FILE_DOES_NOT_EXIST": 33, "RENAME_NEW_FILE_DOES_EXIST": 34, "RENAME_NOT_ALLOWED": 35,
+        "RENAME_NOT_PERFORMED": 47, "APPEND_SUCCESS": 48, "APPEND_FILE_NAME_ONE_NOT_EXISTS": 49,
+        "APPEND_FILE_NAME_TWO_NOT_EXISTS": 50, "APPEND_NOT_ALLOWED": 51, "APPEND_NOT_PERFORMED": 63, "REPLACE_SUCCESS": 64,
+        "REPLACE_FILE_NAME_ONE_TO_BE_REPLACED_DOES_NOT_EXIST": 65, "REPLACE_FILE_NAME_TWO_REPLACE_SOURCE_NOT_EXIST": 66,
+        "REPLACE_NOT_ALLOWED": 67, "REPLACE_NOT_PERFORMED": 79, "CREATE_DIR_SUCCESS": 80, "CREATE_DIR_CAN_NOT_BE_CREATED": 81,
+        "CREATE_DIR_NOT_PERFORMED": 95, "REMOVE_DIR_SUCCESS": 96, "REMOVE_DIR_DOES_NOT_EXIST": 97, "REMOVE_DIR_NOT_ALLOWED": 98,
+        "REMOVE_DIR_NOT_PERFORMED": 111, "DENY_FILE_DEL_SUCCESS": 112, "DENY_FILE_DEL_NOT_ALLOWED": 114,
+        "DENY_FILE_DEL_NOT_PERFORMED": 127, "DENY_DIR_DEL_SUCCESS": 128, "DENY_DIR_DEL_NOT_ALLOWED": 130,
+        "DENY_DIR_DEL_NOT_PERFORMED": 143, "INVALID": -1},
+    "FaultHandlerCode": {"NOTICE_OF_CANCELLATION": 1, "NOTICE_OF_SUSPENSION": 2, "IGNORE_ERROR": 3, "ABANDON_TRANSACTION": 4},
+    # 6.2 / 6.3 reserved CFDP messages (table 6-1 message types; 0x0A 'originating transaction ID' is the module constant
+    # ORIGINATING_TRANSACTION_ID_MSG_TYPE_ID, see std_constant; 0x15 is the library's documented custom listing-parameters code)
+    "ProxyMessageType": {"PUT_REQUEST": 0, "MSG_TO_USER": 1, "FS_REQUEST": 2, "FAULT_HANDLER_OVERRIDE": 3, "TRANSMISSION_MODE": 4,
+                         "FLOW_LABEL": 5, "SEGMENTATION_CTRL": 6, "PUT_RESPONSE": 7, "FS_RESPONSE": 8, "PUT_CANCEL": 9,
+                         "CLOSURE_REQUEST": 11},
+    "DirectoryOperationMessageType": {"LISTING_REQUEST": 16, "LISTING_RESPONSE": 17, "CUSTOM_LISTING_PARAMETERS": 21},
+    # ---- CCSDS 732.1-B-2 (USLP) 4.1.2 primary header, 4.1.4.2 TFDF header (table 4-3 construction rules, UPID per SANA)
+    "SourceOrDestField": {"SOURCE": 0, "DEST": 1},
+    "BypassSequenceControlFlag": {"SEQ_CTRLD_QOS": 0, "EXPEDITED_QOS": 1},
+    "ProtocolCommandFlag": {"USER_DATA": 0, "PROTOCOL_INFORMATION": 1},
+    "TfdzConstructionRules": {"FpPacketSpanningMultipleFrames": 0, "FpFixedStartOfMapaSDU": 1, "FpContinuingPortionOfMapaSDU": 2,
+                              "VpOctetStream": 3, "VpStartingSegment": 4, "VpContinuingSegment": 5, "VpLastSegment": 6,
+                              "VpNoSegmentation": 7},
+    "UslpProtocolIdentifier": {"SPACE_PACKETS_ENCAPSULATION_PACKETS": 0, "COP_1_CTRL_COMMANDS": 1, "COP_2_CTRL_COMMANDS": 2,
+                               "SDLS_CTRL_COMMANDS": 3, "USER_DEFINED_OCTET_STREAM": 4, "MISSION_SPECIFIC_INFO_1_MAPA_SDU": 5,
+                               "PRIXMITY_1_PSEUDO_PACKET_ID_1": 6, "PROXIMITY_1_SPDUS": 7, "PRIXMITY_1_PSEUDO_PACKET_ID_2": 8,
+                               "IDLE_DATA": 31},
+    # ---- CCSDS 133.0-B-2 (space packet) 4.1.3: packet type, sequence flags
+    "PacketType": {"TM": 0, "TC": 1},
+    "SequenceFlags": {"CONTINUATION_SEGMENT": 0, "FIRST_SEGMENT": 1, "LAST_SEGMENT": 2, "UNSEGMENTED": 3},
+    # ---- ECSS-E-ST-70-41C: TM/TC secondary header version number, service types
+    "PusVersion": {"ESA_PUS": 0, "PUS_A": 1, "PUS_C": 2},
+    "PusService": {"S1_VERIFICATION": 1, "S2_RAW_CMD": 2, "S3_HOUSEKEEPING": 3, "S5_EVENT": 5, "S6_MEMORY_MGMT": 6,
+                   "S8_FUNC_CMD": 8, "S9_TIME_MGMT": 9, "S11_TC_SCHED": 11, "S15_TM_STORAGE": 15, "S17_TEST": 17,
+                   "S20_PARAMETER": 20, "S23_FILE_MGMT": 23},
+    # request verification service, message subtypes TM[1,1] .. TM[1,8] (spacepackets.ecss.pus_1_verification.Subservice)
+    "pus_1_verification.Subservice": {"TM_ACCEPTANCE_SUCCESS": 1, "TM_ACCEPTANCE_FAILURE": 2, "TM_START_SUCCESS": 3,
+                                      "TM_START_FAILURE": 4, "TM_STEP_SUCCESS": 5, "TM_STEP_FAILURE": 6,
+                                      "TM_COMPLETION_SUCCESS": 7, "TM_COMPLETION_FAILURE": 8},
+}
+# (names other versions of the library use for the same enumerations)
+STD_NAMES["FileDeliveryStatus"] = STD_NAMES["FileStatus"]
+STD_NAMES["PromptResponseRequired"] = STD_NAMES["ResponseRequired"]
+# module-level integer constants that stand for a code of a standard: (attribute name, code)
+STD_CONSTANTS: Dict[str, int] = {"ORIGINATING_TRANSACTION_ID_MSG_TYPE_ID": 0x0A}
+
+
+def std_table(enum_cls: Any) -> Dict[str, int]:
+    """the name -> standard-code table of an enumeration class of the library ({} when there is none)"""
+    try:
+        return _STD_TABLE_OF[enum_cls]
+    except (KeyError, TypeError):
+        pass
+    n = getattr(enum_cls, "__name__", "")
+    qual = (getattr(enum_cls, "__module__", "") or "").rsplit(".", 1)[-1] + "." + n
+    t = STD_NAMES.get(qual) or STD_NAMES.get(n) or {}
+    try:
+        _STD_TABLE_OF[enum_cls] = t
+    except TypeError:
+        pass
+    return t
+
+
+def _std_named_members(enum_cls: Any, table: Dict[str, int]) -> List[Any]:
+    """[(name, standard code, member of that NAME)] for the names of `table` the class defines (aliases included)"""
+    key = (enum_cls, id(table))
+    got = _STD_CACHE.get(key)
+    if got is None:
+        members = getattr(enum_cls, "__members__", None)
+        got = []
+        for name, code in table.items():
+            m = members.get(name) if members is not None else getattr(enum_cls, name, None)
+            if m is not None:
+                got.append((name, code, m))
+        _STD_CACHE[key] = got
+        _STD_KEEP.append(table)         # (keeps id(table) valid for the life of the cache)
+    return got
+
+
+_STD_CACHE: Dict[Any, Any] = {}
+_STD_TABLE_OF: Dict[Any, Dict[str, int]] = {}
+_STD_KEEP: List[Any] = []
+_STD_MEMBER_CACHE: Dict[Any, Any] = {}
+_STD_CODE_CACHE: Dict[Any, Any] = {}
+
+
+def std_member(enum_cls: Any, code: Any, std_table_: Optional[Dict[str, int]] = None, strict: bool = False) -> Any:
+    """what an application passes for the code `code` of a field of the standard: the member of `enum_cls` that carries the
+    STANDARD NAME of the code (`std_table_`: name -> code per the standard; default: the table of STD_NAMES for the class).
+    A code with several standard names (FilestoreResponseStatusCode.SUCCESS / CREATE_SUCCESS) is spelled with any of them
+    by applications: the member returned is one whose value is not the code, if there is such a name, else the first.
+    A code the standard gives no name, or whose name(s) this version of the library does not define, goes in as before:
+    `enum_cls(code)` - with strict=False the plain integer when that raises ValueError (the library takes both)."""
+    key = (enum_cls, id(std_table_), code if isinstance(code, int) else None, strict)
+    if key[2] is not None:
+        try:
+            return _STD_MEMBER_CACHE[key]
+        except KeyError:
+            pass
+    table = std_table(enum_cls) if std_table_ is None else std_table_
+    named = [m for (_, c, m) in _std_named_members(enum_cls, table) if c == code] if isinstance(code, int) else []
+    if named:
+        out = named[0]
+        for m in named:
+            try:
+                if int(m) != code:
+                    out = m
+                    break
+            except (TypeError, ValueError):
+                out = m
+                break
+    else:
+        try:
+            out = enum_cls(code)
+        except ValueError:
+            if strict:
+                raise
+            out = code
+    if key[2] is not None:
+        _STD_MEMBER_CACHE[key] = out
+    return out
+
+
+def std_code(enum_cls: Any, value: Any, std_table_: Optional[Dict[str, int]] = None, what: str = "") -> int:
+    """`int(value)` for a value a decoder / getter / attribute of the library hands back for a field of the standard, after
+    the NAME-level clause was checked on it: for every standard name N the library defines,
+        value == enum_cls.N   is True exactly when   int(value) is the standard's code for N
+    (the integer itself is compared with the Lean answer by the framework, so together: the comparison an application makes
+    with the named member is right exactly when the wire code is the standard's code of that name). IntEnum members and plain
+    ints compare by value, so a decoder may hand back either. Raises SelfCheckFailure."""
+    iv = int(value)
+    key = (enum_cls, id(std_table_), type(value), iv)
+    err = _STD_CODE_CACHE.get(key, 0)
+    if err is None:
+        return iv
+    if err == 0:
+        err = None
+        table = std_table(enum_cls) if std_table_ is None else std_table_
+        for name, code, m in _std_named_members(enum_cls, table):
+            same = bool(value == m)
+            if same != (code == iv):
+                en = getattr(enum_cls, "__name__", str(enum_cls))
+                try:
+                    mv = int(m)
+                except (TypeError, ValueError):
+                    mv = m
+                if same:
+                    err = (f"the code {iv} compares EQUAL to {en}.{name} (= {mv}), but the standard's code for {name} is {code}"
+                           f" and {iv} is " + (f"its code for {'/'.join(n for n, c in table.items() if c == iv)}"
+                                               if iv in table.values() else "none of its named codes"))
+                else:
+                    err = (f"the code {iv} is the standard's code for {name}, but it does NOT compare equal to {en}.{name} "
+                           f"(= {mv})")
+                break
+        _STD_CODE_CACHE[key] = err
+    if err is not None:
+        raise SelfCheckFailure((what + ": " if what else "") + err + " - code written against the member NAMES reads another "
+                               "meaning than the standard gives this code")
+    return iv
+
+
+def std_constant(module: Any, name: str, code: int) -> Any:
+    """a module-level constant of the library that stands for the standard's code `code`, fetched BY NAME (the plain code when
+    this version of the library does not define the name)"""
+    v = getattr(module, name, None)
+    return code if v is None else v
+
+
+def std_table_diffs(enum_classes: Iterable[Any]) -> List[str]:
+    """table-sync form of the same tie: for every standard name the library defines, `Enum.NAME = <value> (standard: <code>)`
+    where they differ. Names the library lacks and members the standard does not name are not differences."""
+    d: List[str] = []
+    for en in enum_classes:
+        table = std_table(en)
+        for name, code, m in _std_named_members(en, table):
+            try:
+                mv = int(m)
+            except (TypeError, ValueError):
+                mv = m
+            if mv != code:
+                d.append(f"{getattr(en, '__name__', en)}.{name} = {mv} (standard: {code})")
+    return d
